@@ -6,6 +6,11 @@
 //	add <id> <tcp|unix>            AddConn of a conn around a virtual descriptor
 //	addc <id> <tcp|unix>           … whose open notification closes the conn (Close from inside OnOpen)
 //	dialx <id>                     DialAsync whose epoll registration fails (EEXIST): the error return is the report
+//	dialrace <id> <ms>             DialAsync with a dial timeout whose connect completes (EPOLLOUT, SO_ERROR 0) while DialAsync is
+//	                               still between registering the descriptor and arming the timeout; then the timeout elapses
+//	addx <id> <tcp|unix>           AddConn of a conn that was closed before (Close, then AddConn)
+//	hupbusy <id> <p1> <p2>         data event, then — with AsyncReadInPoller while the read task is still inside the data
+//	                               callback of p1 — more data, the peer's FIN and the IN|RDHUP event; then the task goes on
 //	addudp <id>                    UDP listener around a virtual descriptor
 //	dgram <id> <addr> <payload>    datagram queued on the listener (sessions get ids 100*id+k in order of opening)
 //	dial <id> <inprog|now|refused> <timeout ms>   DialAsync; connect(2) is answered EINPROGRESS / 0 / ECONNREFUSED
@@ -40,6 +45,7 @@ import (
 	"strconv"
 	"strings"
 	"sync"
+	"sync/atomic"
 	"syscall"
 	"time"
 
@@ -74,13 +80,20 @@ type conn struct {
 	dialOK  bool // the scripted/real kernel says the connect succeeded
 	flipped bool
 	jobs    int
-	preOpen bool // a close notification arrived before the open notification
-	held    bool // the (closed) descriptor number is kept occupied so that nothing else can get it
-	cio     bool // close the conn from inside its open notification
-	eof     bool // the peer's FIN is in the (virtual) receive queue
+	preOpen bool          // a close notification arrived before the open notification
+	held    bool          // the (closed) descriptor number is kept occupied so that nothing else can get it
+	cio     bool          // close the conn from inside its open notification
+	eof     bool          // the peer's FIN is in the (virtual) receive queue
+	leaked  bool          // opened without a close notification (reported): Stop would hang
+	soSet   bool          // the kernel's verdict on the connect (SO_ERROR) is fixed: the first dev decides
+	hold    chan struct{} // the data callback of this conn waits here (hupbusy)
+	inData  chan struct{} // … after it said so here
+	soe     int
 }
 
 type sess struct {
+	async   bool  // AsyncReadInPoller
+	tasks   int32 // read tasks handed to the IO executor and not finished yet
 	mode    string
 	np      int
 	maxwb   int
@@ -220,10 +233,10 @@ func fdCensus() map[int]bool {
 
 // ---------------------------------------------------------------- session
 
-func newSess(mode string, np, maxwb int, listen bool) (*sess, error) {
-	s := &sess{mode: mode, np: np, maxwb: maxwb, conns: map[int]*conn{}, byPtr: map[*nbio.Conn]*conn{}, byFd: map[int]*conn{}, nsess: map[int]int{}}
+func newSess(mode string, np, maxwb int, listen, async bool) (*sess, error) {
+	s := &sess{async: async, mode: mode, np: np, maxwb: maxwb, conns: map[int]*conn{}, byPtr: map[*nbio.Conn]*conn{}, byFd: map[int]*conn{}, nsess: map[int]int{}}
 	s.fds0 = fdCensus()
-	conf := nbio.Config{NPoller: np, MaxWriteBufferSize: maxwb}
+	conf := nbio.Config{NPoller: np, MaxWriteBufferSize: maxwb, AsyncReadInPoller: async}
 	if listen {
 		conf.Network, conf.Addrs = "tcp", []string{"127.0.0.1:0"}
 	}
@@ -244,6 +257,17 @@ func newSess(mode string, np, maxwb int, listen bool) (*sess, error) {
 	curMu.Unlock()
 	if err := g.Start(); err != nil {
 		return nil, err
+	}
+	if async {
+		// the engine's own IO task pool, wrapped only to know when the read tasks are done
+		orig := g.IOExecute
+		g.IOExecute = func(f func(*[]byte)) {
+			atomic.AddInt32(&s.tasks, 1)
+			orig(func(b *[]byte) {
+				defer atomic.AddInt32(&s.tasks, -1)
+				f(b)
+			})
+		}
 	}
 	s.addrs = g.Addrs
 	// A Stop that overtakes the start of a poller / acceptor goroutine never terminates it (the loops reset
@@ -346,6 +370,18 @@ func (s *sess) onData(nc *nbio.Conn, data []byte) {
 	ci := s.byPtr[nc]
 	if ci == nil {
 		return
+	}
+	if hold := ci.hold; hold != nil {
+		// hupbusy: the read task stays inside this callback until the op has delivered the hang-up event
+		ci.hold = nil
+		in := ci.inData
+		s.mu.Unlock()
+		in <- struct{}{}
+		select {
+		case <-hold:
+		case <-time.After(20 * time.Second):
+		}
+		s.mu.Lock()
 	}
 	if len(ci.closes) > 0 {
 		s.orc = append(s.orc, fmt.Sprintf("c03-close-once conn %d (%s): %d bytes handed to the data callback after its close notification (%s)", ci.id, ci.kind, len(data), ci.closes[0]))
@@ -451,8 +487,26 @@ func (s *sess) finSeen(e *lp.Exec, ci *conn, scripted uint32, ret string) {
 }
 
 func (s *sess) inject(ci *conn, fl uint32) bool {
+	ok := s.injectNoWait(ci, fl)
+	s.waitTasks()
+	return ok
+}
+
+// injectNoWait returns when the poller has handled the batch; read tasks it started may still run
+func (s *sess) injectNoWait(ci *conn, fl uint32) bool {
 	epfd := s.g.VerifEpfd(ci.fd % s.np)
 	return vsys.InjectTimeout(epfd, []syscall.EpollEvent{{Fd: int32(ci.fd), Events: fl}}, 60*time.Second)
+}
+
+// waitTasks: AsyncReadInPoller — the read tasks started so far have returned (virtual descriptors: a task only ends
+// when it has nothing left to do; real sockets are waited for by their ops)
+func (s *sess) waitTasks() {
+	if !s.async {
+		return
+	}
+	for i := 0; i < 20000 && atomic.LoadInt32(&s.tasks) != 0; i++ {
+		time.Sleep(500 * time.Microsecond)
+	}
 }
 
 func (s *sess) connState(ci *conn) (bool, string, int, int) {
@@ -490,6 +544,7 @@ func (s *sess) reserve() {
 }
 
 func (s *sess) result(e *lp.Exec, what string, ret string, ci *conn, logd int) {
+	s.waitTasks()
 	s.settle()
 	s.reserve()
 	s.mu.Lock()
@@ -729,10 +784,11 @@ func exec(e *lp.Exec) {
 		if f[0] == "C" {
 			finish()
 			e.P("> %s", line)
-			if len(f) != 5 {
+			if len(f) != 5 && len(f) != 6 {
 				e.P("bad-op")
 				continue
 			}
+			async := len(f) == 6 && f[5] == "1"
 			np, _ := strconv.Atoi(f[2])
 			mw, _ := strconv.Atoi(f[3])
 			if !(f[1] == "lt" || f[1] == "et" || f[1] == "os") || np <= 0 {
@@ -740,7 +796,7 @@ func exec(e *lp.Exec) {
 				continue
 			}
 			var err error
-			s, err = newSess(f[1], np, mw, f[4] == "1")
+			s, err = newSess(f[1], np, mw, f[4] == "1", async)
 			if err != nil {
 				e.P("bad-op start %v", err)
 				s = nil
@@ -749,7 +805,8 @@ func exec(e *lp.Exec) {
 			s.file = tmp
 			key.Reset()
 			nontrivial = false
-			fmt.Fprintf(&key, "%s/%v|", f[1], mw > 0)
+			fmt.Fprintf(&key, "%s/%v/%v|", f[1], mw > 0, async)
+			e.Count("async", fmt.Sprint(async))
 			e.Count("mode", f[1])
 			e.P("ok")
 			continue
@@ -766,7 +823,7 @@ func exec(e *lp.Exec) {
 		ci := s.conns[id]
 		bad := func() { e.P("> %s", line); e.P("bad-op") }
 		switch f[0] {
-		case "add", "addc":
+		case "add", "addc", "addx":
 			if len(f) != 3 || ci != nil || (f[2] != "tcp" && f[2] != "unix") {
 				bad()
 				continue
@@ -781,7 +838,20 @@ func exec(e *lp.Exec) {
 			s.conns[id] = ci
 			s.byPtr[ci.c] = ci
 			s.mu.Unlock()
+			if f[0] == "addx" {
+				_ = ci.c.Close() // nobody manages the conn yet: no notification
+			}
 			_, err := s.g.AddConn(ci.c)
+			if f[0] == "addx" {
+				s.settle()
+				s.mu.Lock()
+				if ci.opens > 0 && len(ci.closes) == 0 {
+					s.orc = append(s.orc, fmt.Sprintf("c03-close-once conn %d: AddConn of a closed conn issued an open notification and no close notification (Stop waits for it forever)", id))
+					// keep the run alive: release the wait group the way a close notification would have
+					ci.leaked = true
+				}
+				s.mu.Unlock()
+			}
 			e.P("> %s", line)
 			if f[0] == "addc" {
 				s.firstCause(e, ci, false, "nil")
@@ -817,6 +887,51 @@ func exec(e *lp.Exec) {
 			ci.v.PushDgram(lp.Payload(f[3]), &syscall.SockaddrInet4{Addr: [4]byte{127, 0, 0, 1}, Port: p})
 			e.P("> %s", line)
 			s.result(e, "dgram", "nil", ci, 0)
+		case "dialrace":
+			if len(f) != 3 || ci != nil {
+				bad()
+				continue
+			}
+			ms, _ := strconv.Atoi(f[2])
+			ci = &conn{id: id, kind: "dial", addr: "inprog", dialOK: true}
+			s.mu.Lock()
+			s.conns[id] = ci
+			s.byFd[-1] = ci
+			s.mu.Unlock()
+			myid := id
+			fired := false
+			vsys.CtlHook = func(fd, op int, events uint32) {
+				if fired || op != syscall.EPOLL_CTL_ADD || fd != ci.fd {
+					return
+				}
+				fired = true
+				// the kernel completes the connect right now: the poller sees EPOLLOUT with SO_ERROR 0 before DialAsync
+				// gets to its next statement
+				s.inject(ci, evOut)
+			}
+			err := s.g.DialAsyncTimeout("tcp", "127.0.0.1:9", time.Duration(ms)*time.Millisecond, func(nc *nbio.Conn, err error) { s.onDial(myid, nc, err) })
+			vsys.CtlHook = nil
+			s.mu.Lock()
+			if ci.c == nil && ci.fd > 0 {
+				if nc := s.g.VerifConnAt(ci.fd); nc != nil {
+					ci.c = nc
+					s.byPtr[nc] = ci
+				}
+			}
+			s.mu.Unlock()
+			// let the dial timeout elapse: it must not touch an established conn
+			time.Sleep(time.Duration(ms+30) * time.Millisecond)
+			if ci.c != nil {
+				if closed, cerr := ci.c.VerifCloseState(); closed {
+					s.waitClosed(ci)
+					e.Oracle("c03-first-cause", "conn %d: connected (callback reported success), then closed with %s by the dial timeout", id, errClass(cerr))
+				}
+			}
+			e.P("> %s", line)
+			s.result(e, "dialrace", errClass(err), ci, 0)
+			e.Count("conns", "dial-race")
+			key.WriteString("Dr,")
+			nontrivial = true
 		case "dial", "dialx":
 			if f[0] == "dialx" {
 				if len(f) != 2 {
@@ -879,20 +994,28 @@ func exec(e *lp.Exec) {
 			}
 			was := s.isClosed(ci)
 			soe := 0
-			causes := []string{"eof"}
 			switch f[3] {
 			case "refused":
 				soe = int(syscall.ECONNREFUSED)
-				causes = append(causes, "refused")
 			case "unreach":
 				soe = int(syscall.EHOSTUNREACH)
-				causes = append(causes, "unreach")
 			}
+			causes := []string{"eof"}
 			if !was && ci.c.VerifDialPending() {
-				ci.v.Lock()
-				ci.v.SoError = soe
-				ci.v.Unlock()
-				ci.dialOK = soe == 0 && fl&evOut != 0
+				// the kernel decides once how the connect ends: the first dev of a pending dial fixes SO_ERROR
+				if !ci.soSet {
+					ci.soSet, ci.soe = true, soe
+					ci.v.Lock()
+					ci.v.SoError = soe
+					ci.v.Unlock()
+				}
+				ci.dialOK = ci.soe == 0 && fl&evOut != 0
+				switch ci.soe {
+				case int(syscall.ECONNREFUSED):
+					causes = append(causes, "refused")
+				case int(syscall.EHOSTUNREACH):
+					causes = append(causes, "unreach")
+				}
 			}
 			ret := "nil"
 			if s.g.VerifConnAt(ci.fd) != ci.c {
@@ -934,6 +1057,64 @@ func exec(e *lp.Exec) {
 			s.firstCause(e, ci, was, "eof", "epipe", "reset")
 			s.result(e, "ev", ret, ci, 0)
 			fmt.Fprintf(&key, "e%x,", fl)
+			nontrivial = true
+		case "hupbusy":
+			if len(f) != 4 || ci == nil || ci.v == nil || ci.c == nil || ci.kind != "add" {
+				bad()
+				continue
+			}
+			was := s.isClosed(ci)
+			ret := "nil"
+			if s.g.VerifConnAt(ci.fd) != ci.c {
+				ret = "gone"
+			} else {
+				// the read task can be held only where there is one (AsyncReadInPoller is effective with EPOLLET only) and
+				// further events are delivered to the poller meanwhile (not with EPOLLONESHOT: the descriptor is disarmed
+				// while the task runs)
+				busy := s.async && s.mode == "et"
+				if busy {
+					s.mu.Lock()
+					ci.hold, ci.inData = make(chan struct{}), make(chan struct{}, 1)
+					hold, in := ci.hold, ci.inData
+					s.mu.Unlock()
+					ci.v.Push(lp.Payload(f[2]))
+					if !s.injectNoWait(ci, s.kernelFlags(ci, evIn)) {
+						ret = "stuck"
+					}
+					select {
+					case <-in:
+					case <-time.After(3 * time.Second):
+						// nothing was delivered (the conn did not read): go on without the overlap
+					}
+					ci.v.Push(lp.Payload(f[3]))
+					ci.v.SetRead(true, 0, 0)
+					ci.eof = true
+					if !s.injectNoWait(ci, s.kernelFlags(ci, evIn|evRdhup)) {
+						ret = "stuck"
+					}
+					s.mu.Lock()
+					ci.hold = nil
+					s.mu.Unlock()
+					close(hold)
+					s.waitTasks()
+				} else {
+					ci.v.Push(lp.Payload(f[2]))
+					if !s.inject(ci, s.kernelFlags(ci, evIn)) {
+						ret = "stuck"
+					}
+					ci.v.Push(lp.Payload(f[3]))
+					ci.v.SetRead(true, 0, 0)
+					ci.eof = true
+					if !s.inject(ci, s.kernelFlags(ci, evIn|evRdhup)) {
+						ret = "stuck"
+					}
+				}
+			}
+			e.P("> %s", line)
+			s.finSeen(e, ci, evIn|evRdhup, ret)
+			s.firstCause(e, ci, was, "eof", "reset")
+			s.result(e, "hupbusy", ret, ci, 0)
+			key.WriteString("hb,")
 			nontrivial = true
 		case "push", "eof", "rderr":
 			if ci == nil || ci.v == nil || ci.c == nil || ci.kind == "sess" {
@@ -1320,7 +1501,8 @@ func gen(g *lp.Gen) {
 		np := g.PickInt(1, 2)
 		maxwb := g.PickInt(0, 0, 100)
 		listen := g.Chance(1, 4)
-		g.P("C %s %d %d %d", mode, np, maxwb, b2i(listen))
+		async := g.Chance(1, 3)
+		g.P("C %s %d %d %d %d", mode, np, maxwb, b2i(listen), b2i(async))
 		type ci struct {
 			kind   string
 			typ    string
@@ -1343,6 +1525,12 @@ func gen(g *lp.Gen) {
 			case r < 10:
 				g.P("dialx %d", id)
 				conns[id] = &ci{kind: "dial", dialed: true, closed: true}
+			case r < 13:
+				g.P("dialrace %d %d", id, 1+g.Intn(3))
+				conns[id] = &ci{kind: "dial", dialed: true}
+			case r < 16:
+				g.P("addx %d %s", id, g.Pick("tcp", "unix"))
+				conns[id] = &ci{kind: "add", typ: "unix", closed: true}
 			case r < 45:
 				typ := g.Pick("tcp", "tcp", "unix")
 				g.P("add %d %s", id, typ)
@@ -1462,6 +1650,8 @@ func gen(g *lp.Gen) {
 						g.P("push %d @%d:1", id, 1+g.Intn(30))
 					}
 					g.P("ev %d in -", id)
+				case r < 49:
+					g.P("hupbusy %d @%d:1 @%d:2", id, 1+g.Intn(30), 1+g.Intn(30))
 				case r < 52:
 					g.P("%s %d", g.Pick("eof", "rderr"), id)
 					g.P("ev %d %s -", id, g.Pick("in", "in+rdhup", "rdhup", "hup+err", "in+hup+err"))
